@@ -1,11 +1,158 @@
 import TdVerif.Sexp
+import TdVerif.Model.C03Index
 
 namespace TdVerif.Drive
 open TdVerif Sexp
+open TdVerif.C03
 
+namespace C03D
+
+def bools? (l : List Sexp) : Option (List Bool) :=
+  l.mapM (fun (s : Sexp) => match s with
+    | Sexp.atom "1" => some true
+    | Sexp.atom "0" => some false
+    | _ => none)
+
+def shape? : Sexp → Option Shape
+  | .list (.atom _ :: l) => nats? l
+  | _ => none
+
+def ix? : Sexp → Option Ix
+  | .atom "none" => some .none
+  | .atom "ell" => some .ell
+  | .list [.atom "int", i] => (asInt? i).map .int
+  | .list [.atom "slice", a, b, c] => do pure (.slice (← asOptInt? a) (← asOptInt? b) (← asOptInt? c))
+  | .list (.atom "list" :: l) => (ints? l).map .list
+  | .list [.atom "range", a, b, c] => do pure (.range (← asInt? a) (← asInt? b) (← asInt? c))
+  | .list [.atom "tensor", s, .list d] => do pure (.tensor (← shape? s) (← ints? d))
+  | .list [.atom "mask", s, .list d] => do pure (.mask (← shape? s) (← bools? d))
+  | _ => none
+
+def pyIndex? : Sexp → Option PyIndex
+  | .list [.atom "single", x] => (ix? x).map .single
+  | .list (.atom "tuple" :: l) => (l.mapM ix?).map .tuple
+  | _ => none
+
+def ixToSexp : Ix → Sexp
+  | .int i => tagged "int" [ofInt i]
+  | .slice a b c => tagged "slice" [ofOptInt a, ofOptInt b, ofOptInt c]
+  | .none => .atom "none"
+  | .ell => .atom "ell"
+  | .list l => tagged "list" (l.map ofInt)
+  | .range a b c => tagged "range" [ofInt a, ofInt b, ofInt c]
+  | .tensor s d => tagged "tensor" [tagged "shape" (s.map ofNat), ofInts d]
+  | .mask s d => tagged "mask" [tagged "shape" (s.map ofNat), .list (d.map (fun b => .atom (if b then "1" else "0")))]
+
+def pyIndexToSexp : PyIndex → Sexp
+  | .single x => tagged "single" [ixToSexp x]
+  | .tuple l => tagged "tuple" (l.map ixToSexp)
+
+def errToSexp : Err → Sexp
+  | .index => tagged "err" [.atom "index"]
+  | .runtime => tagged "err" [.atom "runtime"]
+  | .value => tagged "err" [.atom "value"]
+  | .type => tagged "err" [.atom "type"]
+
+def names? : Sexp → Option (Option Td.Names)
+  | .atom "none" => some none
+  | .list (.atom "names" :: l) =>
+    (l.mapM (fun (s : Sexp) => match s with
+      | Sexp.atom "none" => some (none : Option String)
+      | Sexp.atom a => some (some a)
+      | _ => (none : Option (Option String)))).map some
+  | _ => none
+
+def namesToSexp : Option Td.Names → Sexp
+  | none => .atom "none"
+  | some l => tagged "names" (l.map (fun n => match n with | none => Sexp.atom "none" | some a => Sexp.atom a))
+
+/-- a result leaf materialised: shape, flat source offset of every element (row-major), view bit -/
+def leafToSexp (srcShape : Shape) (r : TorchSpec.IndexResult) : Sexp :=
+  tagged "leaf" [tagged "shape" (r.shape.map ofNat),
+    tagged "src" ((coords r.shape).map (fun c => ofNat (ravel srcShape (r.src c)))),
+    .atom (if r.view then "view" else "copy")]
+
+def nested? : Sexp → Option Td.Nested
+  | .list [e, .list ls] => do pure { extra := (← shape? e), leaves := (← ls.mapM shape?) }
+  | _ => none
+
+def getResToSexp (td : Td.TD) : Except Err Td.GetRes → Sexp
+  | .error e => errToSexp e
+  | .ok .self => tagged "self" []
+  | .ok (.new bs names leaves nested) =>
+    tagged "ok" [tagged "bs" (bs.map ofNat), namesToSexp names,
+      tagged "leaves" ((td.leaves.zip leaves).map (fun (feat, r) => leafToSexp (td.bs ++ feat) r)),
+      tagged "nested" ((td.nested.zip nested).map (fun (nd, (nbs, ls)) =>
+        .list [tagged "bs" (nbs.map ofNat),
+          .list ((nd.leaves.zip ls).map (fun (feat, r) => leafToSexp (td.bs ++ nd.extra ++ feat) r))]))]
+
+end C03D
+
+open C03D in
 /-- line-protocol handler for C03: commands are named `c03.<something>` -/
 def handleC03 (cmd : String) (args : List Sexp) : Option Sexp :=
   match cmd, args with
+  -- TorchSpec on a bare tensor of shape `dims`
+  | "c03.torch", [dims, idx] => do
+      let dims ← shape? dims; let idx ← pyIndex? idx
+      pure (match TorchSpec.index dims idx.items with
+        | .error e => errToSexp e
+        | .ok r => tagged "ok" [leafToSexp dims r])
+  -- transcribed helpers
+  | "c03.ell", [n, idx] => do
+      let n ← asNat? n; let idx ← pyIndex? idx
+      pure (match Td.convertEllipsis idx n with
+        | .error e => errToSexp e
+        | .ok r => tagged "ok" [pyIndexToSexp r])
+  | "c03.bs", [bs, idx] => do
+      let bs ← shape? bs; let idx ← pyIndex? idx
+      pure (match Td.getitemBatchSize bs idx with
+        | .error e => errToSexp e
+        | .ok r => tagged "ok" (r.map ofNat))
+  | "c03.names", [nm, n, idx] => do
+      let nm ← names? nm; let n ← asNat? n; let idx ← pyIndex? idx
+      pure (match Td.namesIdx nm n idx with
+        | .error e => errToSexp e
+        | .ok r => tagged "ok" [namesToSexp r])
+  -- td[idx]
+  | "c03.get", [bs, nm, .list (.atom "leaves" :: ls), .list (.atom "nested" :: ns), idx] => do
+      let td : Td.TD := { bs := (← shape? bs), names := (← names? nm), leaves := (← ls.mapM shape?), nested := (← ns.mapM nested?) }
+      let idx ← pyIndex? idx
+      pure (getResToSexp td (Td.getitem td idx))
+  -- td[idx] = value (scalar / tensor of shape v): per leaf, for every position the flat offset in `value` written there, -1 = untouched
+  | "c03.set", [bs, .list (.atom "leaves" :: ls), .list (.atom "nested" :: ns), idx, v] => do
+      let td : Td.TD := { bs := (← shape? bs), names := none, leaves := (← ls.mapM shape?), nested := (← ns.mapM nested?) }
+      let idx ← pyIndex? idx; let v ← shape? v
+      let shapes := td.leaves.map (td.bs ++ ·) ++ (td.nested.map (fun nd => nd.leaves.map (td.bs ++ nd.extra ++ ·))).flatten
+      pure (match Td.setitem td idx v with
+        | .error e => errToSexp e
+        | .ok ws => tagged "ok" ((shapes.zip ws).map (fun (sh, w) =>
+            Sexp.list ((coords sh).map (fun c => match w c with
+              | none => ofInt (-1)
+              | some vc => ofNat (ravel v vc))))))
+  -- td[idx] = dict / TensorDict: (c03.setcoll bs leaves idx dict|td (vb ..) ((target|new (shape ..)) ...))
+  | "c03.setcoll", [bs, .list (.atom "leaves" :: ls), idx, .atom kind, vb, .list es] => do
+      let td : Td.TD := { bs := (← shape? bs), names := none, leaves := (← ls.mapM shape?), nested := [] }
+      let idx ← pyIndex? idx; let vb ← shape? vb
+      let entries ← es.mapM (fun (e : Sexp) => match e with
+        | Sexp.list [Sexp.atom "new", sh] => (shape? sh).map (fun s => ({ target := none, shape := s } : Td.VEntry))
+        | Sexp.list [t, sh] => do pure ({ target := some (← asNat? t), shape := (← shape? sh) } : Td.VEntry)
+        | _ => none)
+      pure (match Td.setitemColl td idx (kind == "dict") vb entries with
+        | .error e => errToSexp e
+        | .ok ws => tagged "ok" ((entries.zip ws).map (fun (e, w) =>
+            Sexp.list [match w.target with | some j => ofNat j | none => Sexp.atom "new",
+              tagged "shape" (w.leafShape.map ofNat),
+              Sexp.list ((coords w.leafShape).map (fun c => match w.written c with
+                | none => ofInt (-1)
+                | some vc => ofNat (ravel e.shape vc)))])))
+  | "c03.torchset", [dims, idx, v] => do
+      let dims ← shape? dims; let idx ← pyIndex? idx; let v ← shape? v
+      pure (match TorchSpec.setIndex dims idx.items v with
+        | .error e => errToSexp e
+        | .ok w => tagged "ok" ((coords dims).map (fun c => match w c with
+              | none => ofInt (-1)
+              | some vc => ofNat (ravel v vc))))
   | _, _ => none
 
 end TdVerif.Drive
